@@ -4,6 +4,8 @@ import Asn1Model.Comments
 import Asn1Model.Schema
 import Asn1Model.Uper
 import Asn1Model.Typing
+import Asn1Model.Oer
+import Asn1Model.OerTyping
 /-
   Line protocol: one request per line `op<TAB>arg...`, args are S-expressions.
   One answer line per request.  Everything printed is canonical.
@@ -179,6 +181,10 @@ def opEnc (args : List Sx) : String :=
         match Uper.encode ty val with
         | .ok bs => "ok " ++ (if bs.isEmpty then "-" else toHex bs)
         | .error e => "err " ++ uperErr e
+      | "oer" =>
+        match Oer.encode ty val with
+        | .ok bs => "ok " ++ (if bs.isEmpty then "-" else toHex bs)
+        | .error e => "err " ++ uperErr e
       | _ => "bad-codec"
     | none, _ => "bad-type"
     | _, none => "bad-value"
@@ -193,6 +199,10 @@ def opDec (args : List Sx) : String :=
       match codec with
       | "uper" =>
         match Uper.decode ty bs with
+        | .ok v => "ok " ++ valToStr v
+        | .error e => "err " ++ uperErr e
+      | "oer" =>
+        match Oer.decode ty bs with
         | .ok v => "ok " ++ valToStr v
         | .error e => "err " ++ uperErr e
       | _ => "bad-codec"
@@ -215,6 +225,19 @@ def opRt (args : List Sx) : String :=
       | .ok bits =>
         let rest : Bits := [true, false, true]
         match Uper.dec ty (bits.length + rest.length + 2) (bits ++ rest) with
+        | .error e => hyps ++ " enc=ok dec=err:" ++ uperErr e
+        | .ok (w, r) =>
+          hyps ++ s!" enc=ok dec=ok value={b2s (w == canon ty val)} rest={b2s (r == rest)}"
+    | _, _ => "bad-args"
+  | [.atom "oer", t, v] =>
+    match sxTy? t, sxVal? v with
+    | some ty, some val =>
+      let hyps := s!"wf={b2s (ty.wf && Oer.oerWf ty)} defaults={b2s ty.defaultsOk} hasType={b2s (hasType ty val)} fragFree={b2s (Oer.utf8Ok ty val)}"
+      match Oer.enc ty val with
+      | .error e => hyps ++ " enc=err:" ++ uperErr e
+      | .ok bytes =>
+        let rest : Bytes := [1, 2, 255]
+        match Oer.dec ty (bytes ++ rest) with
         | .error e => hyps ++ " enc=ok dec=err:" ++ uperErr e
         | .ok (w, r) =>
           hyps ++ s!" enc=ok dec=ok value={b2s (w == canon ty val)} rest={b2s (r == rest)}"
